@@ -7,7 +7,7 @@ MODES = [("loop", 401), ("stc", 402), ("pool", 411), ("timed", 423), ("newthread
 
 def run(tier, seed, verdict):
     quick = tier == "quick"
-    rounds = 12 if quick else 600
+    rounds = 12 if quick else 120
     per = 150 if quick else 400
     res = mt_check.MtResult()
     for variant in ("asan20d", "tsan20d"):
